@@ -177,6 +177,56 @@ def body_readback_bounded(h, t):
         if cpu.stack[-1].value != float(v):
             bad2.append((v, cpu.stack[-1].value))
     h.prove('val_reads_back', not bad2, detail=str(bad2[:3]))
+    # INPUT and READ: the printed text of the type limits and their neighbours, handed to the real devices, gives the
+    # value back in a cell of the variable's type (seeded change C16-1: INPUT rejected the LONG minimum)
+    from qvm.machine import TerminalDevice, DataDevice
+    tid = 1 if t == CT.INTEGER else 2
+
+    class _Impl:
+        def __init__(self, line):
+            self.lines = [line]
+
+        def terminal_print(self, text):
+            pass
+
+        def terminal_input(self, same_line):
+            if not self.lines:
+                raise StopIteration('asked again: the line was rejected')
+            return self.lines.pop(0)
+
+    class _Mod:
+        pass
+    bad3, bad4 = [], []
+    for v in (lo, lo + 1, -1, 0, 1, hi - 1, hi):
+        txt = format_number(v, t).strip()
+        cpu = object.__new__(QvmCpu)
+        cpu.stack = [CellValue(CT.INTEGER, 0), CellValue(CT.STRING, ''), CellValue(CT.INTEGER, 0),
+                     CellValue(CT.INTEGER, tid), CellValue(CT.INTEGER, 1)]
+        dev = object.__new__(TerminalDevice)
+        dev.id, dev.cpu, dev.impl, dev.cur_op, dev.mode = 4, cpu, _Impl(txt), None, 0
+        try:
+            dev._exec_input()
+            got = cpu.stack[-1]
+            if len(cpu.stack) != 1 or got.type != t or got.value != v:
+                bad3.append((v, txt, repr(cpu.stack)))
+        except Exception as e:      # noqa: BLE001
+            bad3.append((v, txt, f'{type(e).__name__}: {e}'))
+        cpu = object.__new__(QvmCpu)
+        cpu.stack = [CellValue(CT.INTEGER, tid)]
+        mod = _Mod()
+        mod.data = [[txt]]
+        cpu.module = mod
+        dd = object.__new__(DataDevice)
+        dd.id, dd.cpu, dd.impl, dd.cur_op, dd.data_part, dd.data_idx = 8, cpu, None, None, 0, 0
+        try:
+            dd._exec_read()
+            got = cpu.stack[-1]
+            if len(cpu.stack) != 1 or got.type != t or got.value != v:
+                bad4.append((v, txt, repr(cpu.stack)))
+        except Exception as e:      # noqa: BLE001
+            bad4.append((v, txt, f'{type(e).__name__}: {e}'))
+    h.prove('input_reads_the_type_limits_back', not bad3, detail=str(bad3[:3]))
+    h.prove('read_reads_the_type_limits_back', not bad4, detail=str(bad4[:3]))
 
 
 CONTRACTS = [
@@ -186,6 +236,7 @@ CONTRACTS = [
              body_same_digits, cases=[(t,) for t in (CT.INTEGER, CT.LONG, CT.SINGLE, CT.DOUBLE)]),
     Contract('numtext.float_text', PROPS, ['qvm.utils:format_number'], body_float_bounded, cases=[('SINGLE',), ('DOUBLE',)],
              bounded='boundary-value enumeration (powers of two and ten, rounding neighbours, type limits, seeded random values), native'),
-    Contract('numtext.readback', PROPS, ['qvm.utils:format_number', 'qvm.cpu:QvmCpu._exec_sdbl'], body_readback_bounded,
-             cases=[(CT.INTEGER,), (CT.LONG,)], bounded='all 65536 INTEGER values; LONG with stride 65521; VAL on a sample of 400'),
+    Contract('numtext.readback', PROPS, ['qvm.utils:format_number', 'qvm.cpu:QvmCpu._exec_sdbl', 'qvm.machine:TerminalDevice._exec_input',
+                                         'qvm.machine:DataDevice._exec_read'], body_readback_bounded,
+             cases=[(CT.INTEGER,), (CT.LONG,)], bounded='all 65536 INTEGER values; LONG with stride 65521; VAL on a sample of 400; INPUT and READ at the type limits and their neighbours'),
 ]
